@@ -38,6 +38,12 @@ class InjectedFault(Exception):
     pass
 
 
+# the callbacks of a real user raise all sorts of exception types; the explainers must not swallow any of them
+FAULT_TYPES = [InjectedFault] + [type("Injected" + b.__name__, (InjectedFault, b), {}) for b in
+                                 (ValueError, KeyError, IndexError, RuntimeError, TypeError, ZeroDivisionError, AttributeError,
+                                  ArithmeticError, LookupError, OSError)]
+
+
 class Clock:
     """Single logical clock + event log + failpoint shared by all proxies of one scenario."""
 
@@ -46,12 +52,15 @@ class Clock:
         self.callbacks = 0
         self.fail_at = None
         self.fail_at_next = None      # one-shot failpoint armed for the next call only (survives reset once)
+        self.last_fault = None
+        self.fault_salt = 0
 
     def tick(self, site):
         self.callbacks += 1
         if self.fail_at is not None and self.callbacks == self.fail_at:
             self.log.append(("fault", site))
-            raise InjectedFault(f"{site} #{self.callbacks}")
+            self.last_fault = FAULT_TYPES[(self.callbacks + self.fault_salt) % len(FAULT_TYPES)](f"{site} #{self.callbacks}")
+            raise self.last_fault
 
     def reset(self):
         self.log = []
